@@ -30,7 +30,9 @@ EXTENDS Naturals, Sequences, FiniteSets, TLC
 
 CONSTANTS Clients,     \* set of client thread names
           Reqs,        \* Reqs[t] : sequence of request ids thread t issues one after the other
-          Bg           \* name of the background serving thread, or "none"
+          Bg,          \* name of the background serving thread, or "none"
+          Handoff      \* TRUE: the repaired serve() (replies in transit are counted, a waiter re-checks its result before it
+                       \* polls, waiters are notified again after the dispatch); FALSE: the pinned serve()
 
 None == "none"
 Threads == Clients \cup (IF Bg = None THEN {} ELSE {Bg})
@@ -53,10 +55,11 @@ VARIABLES pc,          \* pc[t]
           receivedBy,  \* history: which thread received the reply of r
           stalls,      \* history: set of <<thread, where>> that had to be released by a timeout
           expired,     \* clients whose (30 s) timeout has run out while they were blocked
+          transit,     \* replies received from the transport and not yet dispatched (len(self._replies_in_transit))
           woke         \* history: woke[t] = t has come out of a blocking operation since the result it waits for was published
 
 vars == <<pc, nxt, cur, wr, sendq, sendlock, sent, replied, chan, recvlock, condlock, waiters, notified,
-          data, cb, ready, value, dispatched, receivedBy, stalls, expired, woke>>
+          data, cb, ready, value, dispatched, receivedBy, stalls, expired, woke, transit>>
 
 Init == /\ pc = [t \in Threads |-> "start"]
         /\ nxt = [t \in Clients |-> 1]
@@ -74,6 +77,7 @@ Init == /\ pc = [t \in Threads |-> "start"]
         /\ stalls = {}
         /\ expired = {}
         /\ woke = [t \in Clients |-> FALSE]
+        /\ transit = 0
 
 IsBg(t) == t = Bg
 
@@ -106,7 +110,7 @@ Start(t) == /\ pc[t] = "start"
                ELSE Begin(t)
             /\ UNCHANGED <<sent, replied, chan, recvlock, condlock, waiters, notified, data, ready, value,
                            dispatched, receivedBy, stalls, expired>>
-            /\ woke' = woke
+            /\ woke' = woke /\ UNCHANGED transit
 
 CWrite(t) == /\ pc[t] = "c_write"
              /\ sent' = sent \cup {wr[t]}
@@ -119,25 +123,27 @@ CWrite(t) == /\ pc[t] = "c_write"
                      /\ pc' = [pc EXCEPT ![t] = "w_check"]
                      /\ UNCHANGED sendq
              /\ UNCHANGED <<nxt, cur, replied, chan, recvlock, condlock, waiters, notified, data, cb, ready, value,
-                            dispatched, receivedBy, stalls, expired, woke>>
+                            dispatched, receivedBy, stalls, expired, woke, transit>>
 
 \* ------------------------------------------------------------------ waiting
 WCheck(t) == /\ pc[t] = "w_check"
              /\ pc' = [pc EXCEPT ![t] = IF ready[cur[t]] THEN "w_final" ELSE "s_cond_in"]
              /\ UNCHANGED <<nxt, cur, wr, sendq, sendlock, sent, replied, chan, recvlock, condlock, waiters, notified,
-                            data, cb, ready, value, dispatched, receivedBy, stalls, expired, woke>>
+                            data, cb, ready, value, dispatched, receivedBy, stalls, expired, woke, transit>>
 
 WFinal(t) == /\ pc[t] = "w_final"
              /\ Begin(t)
              /\ UNCHANGED <<sent, replied, chan, recvlock, condlock, waiters, notified, data, ready, value,
                             dispatched, receivedBy, stalls, expired>>
-             /\ woke' = [woke EXCEPT ![t] = FALSE]
+             /\ woke' = [woke EXCEPT ![t] = FALSE] /\ UNCHANGED transit
 
 \* serve() has returned to its caller
 Return(t) == IF IsBg(t) THEN "b_sleep" ELSE "w_check"
+AfterDispatch(t) == IF Handoff THEN "d_ncond_in" ELSE Return(t)
 
 \* ------------------------------------------------------------------ serve
-U1 == <<nxt, cur, wr, sendq, sendlock, sent, replied, cb, ready, value, dispatched>>
+U1x == <<nxt, cur, wr, sendq, sendlock, sent, replied, cb, ready, value, dispatched>>
+U1 == <<U1x, transit>>
 
 CondIn(t, from, to) == /\ pc[t] = from
                        /\ condlock = None
@@ -150,12 +156,24 @@ CondOut(t, from, to) == /\ pc[t] = from
                         /\ pc' = [pc EXCEPT ![t] = to]
                         /\ UNCHANGED <<U1, chan, recvlock, waiters, notified, data, receivedBy, stalls, expired, woke>>
 
-SCondIn(t) == CondIn(t, "s_cond_in", "s_trylock")
+SCondIn(t) == CondIn(t, "s_cond_in", IF Handoff /\ ~IsBg(t) THEN "s_precheck" ELSE "s_trylock")
+\* repaired serve(until=...): under the condition's lock, first look whether the result is there already (the check the caller
+\* made before calling serve() may be stale; a publication after THIS check is followed by a notification we will get)
+SPrecheck(t) == /\ pc[t] = "s_precheck"
+                /\ pc' = [pc EXCEPT ![t] = IF ready[cur[t]] THEN "s_cond_out2" ELSE "s_trylock"]
+                /\ UNCHANGED <<U1, chan, recvlock, condlock, waiters, notified, data, receivedBy, stalls, expired, woke>>
 
+\* repaired serve(): holding the receive lock (so nobody can be between taking a reply off the transport and counting it),
+\* `if replies are in transit: release the lock again and wait for the notification that follows their dispatch`
 STryLock(t) == /\ pc[t] = "s_trylock"
                /\ IF recvlock = None
-                  THEN recvlock' = t /\ pc' = [pc EXCEPT ![t] = "s_cond_out1"]
+                  THEN recvlock' = t /\ pc' = [pc EXCEPT ![t] = IF Handoff /\ transit > 0 THEN "s_giveup" ELSE "s_cond_out1"]
                   ELSE UNCHANGED recvlock /\ pc' = [pc EXCEPT ![t] = "s_wait"]
+               /\ UNCHANGED <<U1, chan, condlock, waiters, notified, data, receivedBy, stalls, expired, woke>>
+
+SGiveUp(t) == /\ pc[t] = "s_giveup"
+               /\ recvlock' = None
+               /\ pc' = [pc EXCEPT ![t] = "s_wait"]
                /\ UNCHANGED <<U1, chan, condlock, waiters, notified, data, receivedBy, stalls, expired, woke>>
 
 SWait(t) == /\ pc[t] = "s_wait"
@@ -176,7 +194,12 @@ SBlocked(t) == /\ pc[t] = "s_blocked"
 
 SReacq(t) == CondIn(t, "s_reacq", "s_cond_out2")
 SCondOut2(t) == CondOut(t, "s_cond_out2", Return(t))
-SCondOut1(t) == CondOut(t, "s_cond_out1", "s_poll")
+SCondOut1(t) == CondOut(t, "s_cond_out1", IF Handoff /\ ~IsBg(t) THEN "s_recheck" ELSE "s_poll")
+\* repaired serve(), called from AsyncResult.wait with until = "my result is there": holding the receive lock, look again
+\* before going to sleep on the transport (whoever published it did so before the count of replies in transit went down)
+SRecheck(t) == /\ pc[t] = "s_recheck"
+               /\ pc' = [pc EXCEPT ![t] = IF ready[cur[t]] THEN "s_release" ELSE "s_poll"]
+               /\ UNCHANGED <<U1, chan, recvlock, condlock, waiters, notified, data, receivedBy, stalls, expired, woke>>
 
 SPoll(t) == /\ pc[t] = "s_poll"
             /\ \/ /\ chan # <<>>
@@ -196,7 +219,8 @@ SBody(t) == /\ pc[t] = "s_body"
             /\ receivedBy' = [receivedBy EXCEPT ![Head(chan)] = t]
             /\ chan' = Tail(chan)
             /\ pc' = [pc EXCEPT ![t] = "s_release"]
-            /\ UNCHANGED <<U1, recvlock, condlock, waiters, notified, stalls, expired, woke>>
+            /\ transit' = IF Handoff THEN transit + 1 ELSE transit
+            /\ UNCHANGED <<U1x, recvlock, condlock, waiters, notified, stalls, expired, woke>>
 
 SRelease(t) == /\ pc[t] = "s_release"
                /\ recvlock' = None
@@ -213,18 +237,20 @@ SNotify(t) == /\ pc[t] = "s_notify"
 
 SNCondOut(t) == CondOut(t, "s_ncond_out", IF data[t] = None THEN Return(t) ELSE "s_dispatch")
 
-U2 == <<nxt, cur, wr, sendq, sendlock, sent, replied, chan, recvlock, condlock, waiters, notified, receivedBy, stalls, expired, woke>>
+U2x == <<nxt, cur, wr, sendq, sendlock, sent, replied, chan, recvlock, condlock, waiters, notified, receivedBy, stalls, expired, woke>>
+U2 == <<U2x, transit>>
 
 SDispatch(t) == /\ pc[t] = "s_dispatch"
                 /\ IF data[t] \in cb
                    THEN /\ cb' = cb \ {data[t]}
                         /\ pc' = [pc EXCEPT ![t] = "d_expired"]
                         /\ UNCHANGED data
-                   ELSE /\ pc' = [pc EXCEPT ![t] = Return(t)]      \* no callback: logged and dropped
+                   ELSE /\ pc' = [pc EXCEPT ![t] = AfterDispatch(t)]      \* no callback: logged and dropped
                         /\ data' = [data EXCEPT ![t] = None]
                         /\ UNCHANGED cb
                 /\ dispatched' = [dispatched EXCEPT ![data[t]] = @ + 1]
-                /\ UNCHANGED <<U2, ready, value>>
+                /\ transit' = IF Handoff /\ data[t] \notin cb THEN transit - 1 ELSE transit
+                /\ UNCHANGED <<U2x, ready, value>>
 
 DExpired(t) == /\ pc[t] = "d_expired"
                /\ pc' = [pc EXCEPT ![t] = "d_publish"]
@@ -234,8 +260,18 @@ DPublish(t) == /\ pc[t] = "d_publish"
                /\ ready' = [ready EXCEPT ![data[t]] = TRUE]
                /\ value' = [value EXCEPT ![data[t]] = data[t]]
                /\ data' = [data EXCEPT ![t] = None]
-               /\ pc' = [pc EXCEPT ![t] = Return(t)]
-               /\ UNCHANGED <<U2, cb, dispatched>>
+               /\ pc' = [pc EXCEPT ![t] = AfterDispatch(t)]
+               /\ transit' = IF Handoff THEN transit - 1 ELSE transit
+               /\ UNCHANGED <<U2x, cb, dispatched>>
+
+\* repaired serve(): after the dispatch, `with self._recv_event: notify_all()` once more
+DNCondIn(t) == CondIn(t, "d_ncond_in", "d_notify")
+DNotify(t) == /\ pc[t] = "d_notify"
+              /\ notified' = notified \cup waiters
+              /\ waiters' = {}
+              /\ pc' = [pc EXCEPT ![t] = "d_ncond_out"]
+              /\ UNCHANGED <<U1, chan, recvlock, condlock, data, receivedBy, stalls, expired, woke>>
+DNCondOut(t) == CondOut(t, "d_ncond_out", Return(t))
 
 BSleep(t) == /\ pc[t] = "b_sleep"
              /\ pc' = [pc EXCEPT ![t] = "s_cond_in"]
@@ -245,17 +281,18 @@ Step(t) == \/ Start(t) \/ CWrite(t) \/ WCheck(t) \/ WFinal(t)
            \/ SCondIn(t) \/ STryLock(t) \/ SWait(t) \/ SBlocked(t) \/ SReacq(t) \/ SCondOut2(t) \/ SCondOut1(t)
            \/ SPoll(t) \/ SHdr(t) \/ SBody(t) \/ SRelease(t) \/ SNCondIn(t) \/ SNotify(t) \/ SNCondOut(t)
            \/ SDispatch(t) \/ DExpired(t) \/ DPublish(t) \/ BSleep(t)
+           \/ SPrecheck(t) \/ SGiveUp(t) \/ SRecheck(t) \/ DNCondIn(t) \/ DNotify(t) \/ DNCondOut(t)
 
 \* ------------------------------------------------------------------ environment
 PeerReply(r) == /\ r \in sent \ replied
                 /\ replied' = replied \cup {r}
                 /\ chan' = Append(chan, r)
                 /\ UNCHANGED <<pc, nxt, cur, wr, sendq, sendlock, sent, recvlock, condlock, waiters, notified, data, cb,
-                               ready, value, dispatched, receivedBy, stalls, expired, woke>>
+                               ready, value, dispatched, receivedBy, stalls, expired, woke, transit>>
 
 \* a thread cannot take a step
 Blocked(t) == \/ pc[t] = "done"
-              \/ pc[t] \in {"s_cond_in", "s_reacq", "s_ncond_in"} /\ condlock # None
+              \/ pc[t] \in {"s_cond_in", "s_reacq", "s_ncond_in", "d_ncond_in"} /\ condlock # None
               \/ pc[t] = "s_blocked" /\ t \notin notified /\ ~IsBg(t) /\ t \notin expired
               \/ pc[t] = "s_poll" /\ chan = <<>> /\ ~IsBg(t) /\ t \notin expired
 
@@ -275,7 +312,7 @@ Expire == /\ Quiescent /\ NothingToCome
           /\ expired' = {t \in Clients : pc[t] \in {"s_poll", "s_blocked"}}
           /\ stalls' = stalls \cup {<<t, pc[t]>> : t \in {u \in Clients : pc[u] \in {"s_poll", "s_blocked"}}}
           /\ UNCHANGED <<pc, nxt, cur, wr, sendq, sendlock, sent, replied, chan, recvlock, condlock, waiters, notified,
-                         data, cb, ready, value, dispatched, receivedBy, woke>>
+                         data, cb, ready, value, dispatched, receivedBy, woke, transit>>
 
 TimeoutWake(t) == /\ t \in expired
                   /\ \/ /\ pc[t] = "s_poll" /\ chan = <<>>
@@ -288,7 +325,7 @@ TimeoutWake(t) == /\ t \in expired
                   /\ expired' = expired \ {t}
                   /\ woke' = IF ready[cur[t]] THEN [woke EXCEPT ![t] = TRUE] ELSE woke
                   /\ UNCHANGED <<nxt, cur, wr, sendq, sendlock, sent, replied, chan, recvlock, condlock, data, cb,
-                                 ready, value, dispatched, receivedBy, stalls>>
+                                 ready, value, dispatched, receivedBy, stalls, transit>>
 
 AllDone == \A t \in Clients : pc[t] = "done"
 Finished == AllDone /\ BgIdle /\ UNCHANGED vars
@@ -308,11 +345,12 @@ Spec == Init /\ [][Next]_vars /\ Fair
 
 -----------------------------------------------------------------------------------
 (* C13 *)
-Holding(t) == pc[t] \in {"s_cond_out1", "s_poll", "s_hdr", "s_body", "s_release"}
+Holding(t) == pc[t] \in {"s_cond_out1", "s_giveup", "s_recheck", "s_poll", "s_hdr", "s_body", "s_release"}
 \* only the holder of the receive lock reads from the transport
 RecvMutex == /\ \A t \in Threads : Holding(t) => recvlock = t
              /\ Cardinality({t \in Threads : Holding(t)}) <= 1
-CondMutex == \A t \in Threads : pc[t] \in {"s_trylock", "s_wait", "s_cond_out1", "s_cond_out2", "s_notify", "s_ncond_out"} => condlock = t
+CondMutex == \A t \in Threads : pc[t] \in {"s_trylock", "s_wait", "s_cond_out1", "s_cond_out2", "s_notify", "s_ncond_out", "s_precheck", "s_giveup", "d_notify",
+                                            "d_ncond_out"} => condlock = t
 \* every reply frame is dispatched at most once; a published result is the reply to that very request
 DispatchedOnce == \A r \in AllReqs : dispatched[r] <= 1
 ReplyMatches == \A r \in AllReqs : ready[r] => value[r] = r /\ r \in replied
@@ -324,7 +362,8 @@ NoLostWakeup == ~(Quiescent /\ chan # <<>> /\ (Bg = None \/ recvlock # None))
 \* releasing it) or a notifier is on its way
 WillBeWoken == \A t \in Clients : pc[t] = "s_blocked" /\ t \notin notified =>
                    \/ recvlock # None
-                   \/ \E u \in Threads : pc[u] \in {"s_ncond_in", "s_notify"}
+                   \/ \E u \in Threads : pc[u] \in {"s_ncond_in", "s_notify", "d_ncond_in", "d_notify"}
+                   \/ transit > 0                                 \* whoever dispatches that reply notifies afterwards
 Termination == <>AllDone
 
 (* C14 *)
